@@ -34,6 +34,7 @@ type Violation struct {
 	Path    string            `json:"path"`
 	Choices []int             `json:"choices,omitempty"`
 	Confirm string            `json:"confirm,omitempty"`
+	Hashes  [][2]string       `json:"hashes,omitempty"` // key bytes (hex) -> value of the uninterpreted hash in the model
 }
 
 type pathRecord struct {
@@ -93,6 +94,7 @@ type Engine struct {
 	hashConcLens map[int]bool
 	hashSymLens  map[int]bool
 	hashAlwaysUF bool
+	hashApps     []hashApp
 	seqThreads   []*FuncVal
 	seqFinally   *FuncVal
 	trackCells   bool
@@ -169,6 +171,7 @@ func (e *Engine) resetPath() {
 	e.gob = nil
 	e.hashConcLens = map[int]bool{}
 	e.hashSymLens = map[int]bool{}
+	e.hashApps = nil
 	e.fpExact = false
 	e.allCells, e.allMaps, e.allChans = nil, nil, nil
 	e.seqThreads, e.seqFinally = nil, nil
@@ -389,7 +392,7 @@ func (e *Engine) report(kind, label, msg string, bad *Term) {
 				q := append(append([]*Term{}, e.pc...), bad, c.cond)
 				if e.solver.Check(q) == ResSat {
 					m := e.solver.Values(e.inputs)
-					e.violations = append(e.violations, Violation{Harness: e.harness, Label: label, Kind: kind, Msg: msg,
+					e.violations = append(e.violations, Violation{Harness: e.harness, Label: label, Kind: kind, Msg: msg, Hashes: e.hashValues(),
 						Model: m, Classes: []string{c.name}, Known: k.ID, Notes: append([]string{}, e.notes...), Path: decString(e.decisions), Choices: append([]int{}, e.choices...)})
 				}
 				knownConds = append(knownConds, c.cond)
@@ -405,7 +408,7 @@ func (e *Engine) report(kind, label, msg string, bad *Term) {
 	if r == ResSat {
 		m := e.solver.Values(e.inputs)
 		cl := e.classesIn(nil)
-		e.violations = append(e.violations, Violation{Harness: e.harness, Label: label, Kind: kind, Msg: msg,
+		e.violations = append(e.violations, Violation{Harness: e.harness, Label: label, Kind: kind, Msg: msg, Hashes: e.hashValues(),
 			Model: m, Classes: cl, Notes: append([]string{}, e.notes...), Path: decString(e.decisions), Choices: append([]int{}, e.choices...)})
 	} else if r == ResUnknown {
 		e.inexact = true
@@ -537,3 +540,39 @@ func sortedKeys(m map[string]int) []string {
 }
 
 var _ = types.Identical
+
+type hashApp struct {
+	bytes []*Term
+	app   *Term
+}
+
+// hashValues evaluates, in the current solver model, every uninterpreted hash application of the path.
+func (e *Engine) hashValues() [][2]string {
+	var out [][2]string
+	for _, h := range e.hashApps {
+		ts := append(append([]*Term{}, h.bytes...), h.app)
+		var syms []*Term
+		for _, t := range ts {
+			if !t.IsConst() {
+				syms = append(syms, t)
+			}
+		}
+		vals := e.solver.Values(syms)
+		get := func(t *Term) uint64 {
+			if t.IsConst() {
+				return t.U
+			}
+			k := t.Name
+			if t.Op != "sym" {
+				k = refName(t)
+			}
+			return parseSMTInt(vals[k]).Uint64()
+		}
+		key := ""
+		for _, b := range h.bytes {
+			key += fmt.Sprintf("%02x", get(b))
+		}
+		out = append(out, [2]string{key, fmt.Sprintf("%d", get(h.app))})
+	}
+	return out
+}
